@@ -27,6 +27,7 @@ func init() {
 			{ID: "C07.R5", Text: "observe callback: replica-table stores and dispatch dominated by ¬closed ∧ generation unchanged ∧ err==nil; IsOutdated ⇔ ¬absent ∧ (vbUUID≠ ∨ seqNo≠); dispatch (vbID, getMinSeqNo(vbID)) routed to observers[vbID].SetPersistSeqNo", Run: c07r5},
 			{ID: "C07.R7", Text: "cluster-map generations: a snapshot is newer ⇔ (epoch, rev) is lexicographically greater; configWatch installs it and reconfigures ⇔ no snapshot yet ∨ newer, only when the snapshot could be read", Run: c07r7},
 			{ID: "C07.R8", Text: "a new cluster map starts from an empty report table: reconfigure bumps the generation, then resets, then marks unassigned copies absent, then starts the observe round of the new generation; reset replaces the whole table by fresh all-zero entries for every vBucket and re-arms the first-round counter on every path", Run: c07r8},
+			{ID: "C07.R9", Text: "every vBucket and every copy is observed: every loop over a concurrent map runs to completion: the Range callback returns true on every path (frozen exception: markAbsentInstances stops at the error it returns)", Run: rangeComplete("couchbase.rollbackMitigation)")},
 			{ID: "C07.R6", Text: "close releases without delivering: observer.Close sets closed; listener called ⇔ ¬closed", Run: c07r6},
 		},
 	})
